@@ -1,7 +1,7 @@
 CONSTANTS
   Nodes = {1,2,3}
   Kinds = {"col"}
-  Ids = {99,100}
+  Ids = {100}
   AKeys = {"a"}
   Vals = {"i:1","i:2"}
   Depth = 0
